@@ -232,22 +232,41 @@ def phot_stream(rep, r, n, lines, exps, metas):
                 rep.violation('fixed-parameter-changed', 'a fixed x_0 did not keep its initial value', replay)
         rep.probe_only += 1
     # IterativePSFPhotometry with one iteration equals PSFPhotometry
-    for _ in range(max(1, n // 4)):
+    for _ in range(max(4, n // 3)):
         model, img, srcs = render_scene(r, 'prf')
         finder = DAOStarFinder(5.0, 2.6)
+        # with a mask (a masked hot pixel next to the first source), an error map and supplied initial positions as well
+        variant = r.choice(['plain', 'mask', 'mask+init', 'error+mask'])
+        kw = {}
+        img2 = img
+        if 'mask' in variant:
+            m = np.zeros(img.shape, bool)
+            hx, hy = int(round(srcs[0][0])) + 1, int(round(srcs[0][1]))
+            if 0 <= hx < img.shape[1] and 0 <= hy < img.shape[0]:
+                m[hy, hx] = True
+                img2 = img.copy()
+                img2[hy, hx] += 500.0
+            kw['mask'] = m
+        if 'error' in variant:
+            kw['error'] = np.full(img.shape, 0.5)
+        if 'init' in variant:
+            kw['init_params'] = Table({'x': [s_[0] + 0.1 for s_ in srcs], 'y': [s_[1] - 0.1 for s_ in srcs]})
         with warnings.catch_warnings():
             warnings.simplefilter('ignore')
-            a = PSFPhotometry(model, (5, 5), finder=finder, grouper=SourceGrouper(6.0), aperture_radius=4, progress_bar=False)(img)
+            a = PSFPhotometry(model, (5, 5), finder=finder, grouper=SourceGrouper(6.0), aperture_radius=4, progress_bar=False)(img2, **kw)
             b = IterativePSFPhotometry(model, (5, 5), finder=finder, grouper=SourceGrouper(6.0), aperture_radius=4, maxiters=1,
-                                       progress_bar=False)(img)
-        rep.case(('iter1', img.tobytes()), True, kind='iterative-maxiters1')
+                                       progress_bar=False)(img2, **kw)
+        rep.case(('iter1', img.tobytes(), variant), True, kind=f'iterative-maxiters1:{variant}')
         rep.probe_only += 1
+        rp = {'sources': srcs, 'variant': variant, 'mask': None if 'mask' not in kw else np.argwhere(kw['mask']).tolist()}
         if a is None or b is None:
             if (a is None) != (b is None):
-                rep.violation('iterative1-ne-single', 'IterativePSFPhotometry(maxiters=1) differs from PSFPhotometry (None)', {})
+                rep.violation('iterative1-ne-single', 'IterativePSFPhotometry(maxiters=1) differs from PSFPhotometry (None)', rp)
             continue
-        if len(a) != len(b) or not np.allclose(a['flux_fit'], b['flux_fit'], rtol=1e-10) or not np.allclose(a['x_fit'], b['x_fit'], rtol=1e-10):
-            rep.violation('iterative1-ne-single', 'IterativePSFPhotometry(maxiters=1) differs from PSFPhotometry', {})
+        if len(a) != len(b) or not np.allclose(a['flux_fit'], b['flux_fit'], rtol=1e-10) or not np.allclose(a['x_fit'], b['x_fit'], rtol=1e-10) \
+                or list(a['npixfit']) != list(b['npixfit']) or list(a['flags']) != list(b['flags']):
+            rep.violation(f'iterative1-ne-single:{variant}', f'IterativePSFPhotometry(maxiters=1) differs from PSFPhotometry ({variant}): '
+                          f'flux {list(np.round(b["flux_fit"], 3))} vs {list(np.round(a["flux_fit"], 3))}, npixfit {list(b["npixfit"])} vs {list(a["npixfit"])}', rp)
 
 
 def replay(rep, data):
